@@ -373,9 +373,10 @@ def kernel_half(c):
     connection from a source port that still carries an unconsumed record of an earlier connection gets its OWN record
     (linux-ebpf/ebpf_cgroup.c driven in user space, judged by spec/trace/EbpfTrace.tla; shared with C06)."""
     from checks import c06
-    for f in c06.kernel_side_port_reuse(c):
-        if f["sig"].get("kind") in ("stale-record-on-reused-port",):
-            c.violation("the kernel program leaves an earlier connection's record under a reused source port: " + f["whats"][0],
+    for f in c06.kernel_side_random(c, "c07k"):
+        if f["sig"].get("kind") in ("stale-record-on-reused-port", "record-for-unlisted", "record-under-other-key", "record-pid",
+                                    "record-ip", "record-port"):
+            c.violation("the kernel program publishes, under a connection's source port, a record that is not that connection's own: " + f["whats"][0],
                         {"kind": "kernel-record-not-the-connections-own"}, {"witness": f.get("witness"), "sites": f["sites"]})
 
 
